@@ -63,7 +63,7 @@ func (x *g) genService(i int, used map[string]bool) {
 	for j := 0; j < nm; j++ {
 		x.genMethod(sv, j, mused)
 	}
-	if (x.o.Profile == "openapi" || x.chance(1, 10)) && !x.o.Runtime && !sv.NoHTTP && x.chance(1, 2) {
+	if (x.o.Profile == "openapi" || x.chance(1, 10)) && (!x.o.Runtime || x.o.Files) && !sv.NoHTTP && x.chance(1, 2) {
 		sv.Files = append(sv.Files, &spec.FileServer{Path: fmt.Sprintf("/static%d/{*filepath}", i), File: "public"})
 		if x.chance(1, 2) {
 			sv.Files = append(sv.Files, &spec.FileServer{Path: fmt.Sprintf("/doc%d.json", i), File: "gen/http/openapi.json"})
